@@ -13,6 +13,18 @@ E_DBL = math.exp(1.0)
 M64 = (1 << 64) - 1
 
 
+def ctor_limits():
+    """(min buckets, max cells) of the CURRENT header as read by tools/trules/countmin.py (lean/DSGen/CountMin.lean): a retuned
+    limit is a parameter, not a violation; what the oracle insists on is that an accepted sketch has hashes*buckets cells."""
+    import os, re
+    try:
+        t = open(os.path.join(core.LEAN, "DSGen", "CountMin.lean")).read()
+        return (int(re.search(r"countmin_MIN_BUCKETS : Nat := (\d+)", t).group(1)),
+                int(re.search(r"countmin_MAX_CELLS : Nat := (\d+)", t).group(1)))
+    except Exception:
+        return 3, MAX_CELLS
+
+
 # ----------------------------------------------------------------------------- independent helpers (python)
 
 def _rotl(x, r):
@@ -237,6 +249,8 @@ def rand_weight(rng, kind, signed):
 def rand_cfg(rng, tier):
     nh = rng.choice(NH_CHOICES)
     nb = rng.choice(NB_CHOICES)
+    if rng.random() < 0.15:          # sweep: any num_hashes 1..255, any small num_buckets >= 3
+        nh, nb = rng.randrange(1, 256), rng.randrange(3, 41)
     if nh * nb > 20000 and rng.random() < 0.5:     # keep the big shapes rare
         nh = rng.choice([1, 2, 3, 5, 8])
     seed = rng.choice([9001, 9001, 0, 1, 2147483647, 2**64 - 1, rng.randrange(2**64), rng.randrange(2**32)])
@@ -367,12 +381,10 @@ def hist_boundary(rng, tier):
             nb = (MAX_CELLS + nh - 1) // nh + rng.choice([0, 1, 1000])
             if nh * nb < 2**32:          # refused without any wrap-around
                 h.new(kind, nh, nb, 9001, usable=False)
-        elif r < 0.7:
-            nh = rng.choice([1, 2, 4, 128, 255])
-            nb = (MAX_CELLS - 1) // nh
-            if nh * nb <= 4096:          # the largest accepted shapes are too big to allocate here; keep the small ones
-                i = h.new(kind, nh, nb, 9001)
-                h.raw("dump %d" % i)
+        elif r < 0.7:                    # (the largest accepted shapes, just below 2^30 cells, are too big to allocate here)
+            nh, nb = rng.randrange(1, 256), rng.choice([3, 4, 5])
+            i = h.new(kind, nh, nb, 9001)
+            h.raw("dump %d" % i)
         else:
             nh, nb = rng.choice([(1, 3), (255, 3), (1, 4), (2, 3)])
             i = h.new(kind, nh, nb, rng.randrange(2**64))
@@ -412,7 +424,8 @@ class C14(Spec):
     model_exe = "dsmodel_countmin"
     family = "countmin"
     tfamilies = ["countmin"]
-    rule = ("histories over count_min_sketch<int64_t|uint64_t|double>: num_hashes in {1,2,3,5,8,255} x num_buckets in {3,4,7,64,1000} x "
+    rule = ("histories over count_min_sketch<int64_t|uint64_t|double>: num_hashes in {1,2,3,5,8,255} x num_buckets in {3,4,7,64,1000} (85%) or any "
+            "num_hashes 1..255 x num_buckets 3..40 (15%) x "
             "seeds {9001,0,1,2^31-1,2^64-1,random}; items = uint64/int64/string/(ptr,len) overloads incl. boundary values, cross-type aliases and "
             "the ignored empty string; weights non-negative (70%) or signed, integer-valued or dyadic doubles; three shapes: multi-sketch "
             "streams with copies, valid/refused merges and serialize->deserialize points (bytes, bytes+header, stream), merge trees of 2-12 "
@@ -458,6 +471,7 @@ class C14(Spec):
         weight), sum |w|, per-item sums of the negative / non-negative weights, and the exact count of every touched cell
         (row r, the item's location in row r as annotated on the op line)."""
         bad = []
+        min_buckets, max_cells = ctor_limits()
         sk = {}          # id -> Acc
         seen_q = {}      # (signature, item) -> (obs, prov)
         seen_d = {}      # signature -> (obs, prov)
@@ -548,7 +562,7 @@ class C14(Spec):
                 continue
             if op == "new":
                 sid, kind, nh, nb, seed = int(w[1]), w[2], int(w[3]), int(w[4]), int(w[5])
-                must_throw = nb < 3 or nh * nb >= MAX_CELLS
+                must_throw = nb < min_buckets or nh * nb >= max_cells
                 if o[0] == "throw":
                     if not must_throw:
                         bad.append(("ctor-refuses-valid-arguments", "nh=%d nb=%d" % (nh, nb), i))
@@ -558,7 +572,7 @@ class C14(Spec):
                 unsafe = ncells != nh * nb
                 if must_throw:
                     if unsafe:
-                        bad.append(("ctor-size-product-overflow", "num_hashes=%d num_buckets=%d accepted with %d cells instead of being refused (product %d >= 2^30)" % (nh, nb, ncells, nh * nb), i))
+                        bad.append(("ctor-size-product-overflow", "num_hashes=%d num_buckets=%d accepted with %d cells instead of being refused (product %d >= limit %d)" % (nh, nb, ncells, nh * nb, max_cells), i))
                     else:
                         bad.append(("ctor-accepts-invalid-arguments", "nh=%d nb=%d" % (nh, nb), i))
                 elif unsafe:
